@@ -5,6 +5,7 @@ Implement YAML document Merger.
 Copyright 2020, 2021 William W. Kimball, Jr. MBA MSIS
 """
 import sys
+from copy import deepcopy
 from os.path import basename
 from typing import Any, Dict, List, Set, Tuple, Union
 import json
@@ -901,16 +902,21 @@ class Merger:
         # Merge into each insertion point
         merge_performed = False
         lhs_proc = Processor(self.logger, self.data)
+        novel_rhs = rhs
         for node_coord in self._get_merge_target_nodes(
             insert_at, lhs_proc, rhs
         ):
             target_node = node_coord.node
+            if merge_performed:
+                # Every further target gets its own copy of RHS lest a merge
+                # into one target change nodes it shares with another.
+                rhs = deepcopy(novel_rhs)
             Parsers.set_flow_style(
                 rhs, (target_node.fa.flow_style()
                       if hasattr(target_node, "fa")
                       else None))
 
-            if target_node is rhs:
+            if target_node is novel_rhs:
                 # _get_merge_target_nodes already inserted RHS (novel mergeat)
                 merge_performed = True
             elif isinstance(rhs, CommentedMap):
